@@ -27,7 +27,8 @@
 EXTENDS Integers, Sequences, FiniteSets, TLC, Json
 
 CONSTANTS MAXLEN,     \* bound on the number of parameter names of enumerated shapes
-          MAXK        \* largest argument count tried for enumerated shapes
+          MAXK,       \* largest argument count tried for enumerated shapes
+          MAXHIST     \* longest definition history (top-level forms of one file)
 
 Sigs == ndJsonDeserialize("sigs.ndjson")     \* registry signatures: [name, kind, req, opt, rest, key]
 
@@ -105,20 +106,62 @@ Expected(ctx, k) ==
   IF Reach(ctx) THEN (IF k = 2 THEN "mustnot" ELSE "may")           \* builtin's check suppressed; shadow's own arity may be reported
   ELSE (IF k = 1 THEN "mustnot" ELSE "must")
 
+NoShape == [req |-> 0, opt |-> 0, rest |-> FALSE, key |-> 0]
+\* ----------------------------------------------------- definition histories
+\* One file is a sequence of top-level forms; which function a direct call reaches is decided by what has been
+\* EVALUATED before it: the latest definition of the name in the package current at the call.  The forms:
+\*   D1 (defun f (a) a)      D2 (defun f (a b) a)     C1 (f 1)     C2 (f 1 2)
+\*   PA (in-package 'pa)     PB (in-package 'pb)      (a package made by in-package uses the language package)
+\*   BP (defun g (car) car)  a parameter that merely shares its name with a builtin, in another form
+\*   B0 (car)                B1 (car '(1))            direct calls of the builtin outside that parameter's scope
+HForms == {"D1", "D2", "C1", "C2", "PA", "PB", "BP", "B0", "B1"}
+HCalls == {"C1", "C2", "B0", "B1"}
+HPkgs == {"user", "pa", "pb"}
+Histories == {h \in UNION {[1..m -> HForms] : m \in 1..MAXHIST} : \E i \in DOMAIN h : h[i] \in HCalls}
+\* the outcome of every form, left to right: "-" for a form that is not a call
+RECURSIVE HWalk(_, _, _, _)
+HWalk(h, i, pkg, defs) ==
+  IF i > Len(h) THEN <<>>
+  ELSE LET f == h[i] IN
+    CASE f = "D1" -> <<"-">> \o HWalk(h, i + 1, pkg, [defs EXCEPT ![pkg] = 1])
+      [] f = "D2" -> <<"-">> \o HWalk(h, i + 1, pkg, [defs EXCEPT ![pkg] = 2])
+      [] f = "PA" -> <<"-">> \o HWalk(h, i + 1, "pa", defs)
+      [] f = "PB" -> <<"-">> \o HWalk(h, i + 1, "pb", defs)
+      [] f = "BP" -> <<"-">> \o HWalk(h, i + 1, pkg, defs)
+      [] f = "B0" -> <<"arity">> \o HWalk(h, i + 1, pkg, defs)
+      [] f = "B1" -> <<"ok">> \o HWalk(h, i + 1, pkg, defs)
+      [] f \in {"C1", "C2"} ->
+           LET k == IF f = "C1" THEN 1 ELSE 2 IN
+           <<IF defs[pkg] = 0 THEN "unbound" ELSE IF defs[pkg] = k THEN "ok" ELSE "arity">> \o HWalk(h, i + 1, pkg, defs)
+HOutcome(h) == HWalk(h, 1, "user", [p \in HPkgs |-> 0])
+\* what the arity checks must say about the form at each position (the property's two directions; a call of a
+\* name that is not defined when it is evaluated is not a call of a defun'd function: either answer is allowed)
+HExpect(h) == [i \in DOMAIN h |-> LET o == HOutcome(h)[i] IN
+                 IF o = "arity" THEN "must" ELSE IF o = "ok" THEN "mustnot" ELSE IF o = "unbound" THEN "may" ELSE "-"]
+\* a history-insensitive summary (one signature per bare name for the whole file: the LAST definition) cannot satisfy
+\* HExpect: the specification says where it must fail, so that exactly those positions are the recorded findings
+LastDef(h) == LET ds == {i \in DOMAIN h : h[i] \in {"D1", "D2"}} IN
+              IF ds = {} THEN 0 ELSE IF h[CHOOSE i \in ds : \A j \in ds : j <= i] = "D1" THEN 1 ELSE 2
+FlowBlind(h) == [i \in DOMAIN h |->
+                  IF h[i] \in {"C1", "C2"} THEN LastDef(h) # 0 /\ LastDef(h) # (IF h[i] = "C1" THEN 1 ELSE 2)
+                  ELSE IF h[i] = "B0" THEN \A j \in DOMAIN h : h[j] # "BP" ELSE FALSE]
+HistCases == {[src |-> "hist", s |-> NoShape, k |-> 0, name |-> "", kind |-> "", ctx |-> "", h |-> h] : h \in Histories}
+
 \* ------------------------------------------------------------ enumeration
 \* one initial state per case; the single step prints the specification's prediction for it
-ShapeCases == {[src |-> "shape", s |-> s, k |-> k, name |-> "", kind |-> "", ctx |-> ""] : s \in Shapes, k \in 0..MAXK}
+ShapeCases == {[src |-> "shape", s |-> s, k |-> k, name |-> "", kind |-> "", ctx |-> "", h |-> <<>>] : s \in Shapes, k \in 0..MAXK}
 RegSig(j) == [req |-> Sigs[j].req, opt |-> Sigs[j].opt, rest |-> Sigs[j].rest, key |-> Sigs[j].key]
-RegCases == UNION {{[src |-> "registry", s |-> RegSig(j), k |-> k, name |-> Sigs[j].name, kind |-> Sigs[j].kind, ctx |-> ""]
+RegCases == UNION {{[src |-> "registry", s |-> RegSig(j), k |-> k, name |-> Sigs[j].name, kind |-> Sigs[j].kind, ctx |-> "", h |-> <<>>]
                      : k \in 0..(Sigs[j].req + Sigs[j].opt + 2 * Sigs[j].key + 2)} : j \in 1..Len(Sigs)}
-NoShape == [req |-> 0, opt |-> 0, rest |-> FALSE, key |-> 0]
-ShadowCases == {[src |-> "shadow", s |-> NoShape, k |-> k, name |-> "car", kind |-> "fun", ctx |-> c] : c \in Contexts, k \in 0..3}
+ShadowCases == {[src |-> "shadow", s |-> NoShape, k |-> k, name |-> "car", kind |-> "fun", ctx |-> c, h |-> <<>>] : c \in Contexts, k \in 0..3}
 
-Init == phase \in (ShapeCases \cup RegCases \cup ShadowCases) /\ done = FALSE
+Init == phase \in (ShapeCases \cup RegCases \cup ShadowCases \cup HistCases) /\ done = FALSE
 Emit ==
   /\ ~done /\ done' = TRUE /\ UNCHANGED phase
   /\ IF phase.src = "shadow"
      THEN PrintT(ToJson([src |-> "shadow", ctx |-> phase.ctx, k |-> phase.k, reach |-> Reach(phase.ctx), expect |-> Expected(phase.ctx, phase.k)]))
+     ELSE IF phase.src = "hist"
+     THEN PrintT(ToJson([src |-> "hist", h |-> phase.h, out |-> HOutcome(phase.h), expect |-> HExpect(phase.h), blind |-> FlowBlind(phase.h)]))
      ELSE PrintT(ToJson([src |-> phase.src, name |-> phase.name, kind |-> phase.kind,
                          req |-> phase.s.req, opt |-> phase.s.opt, rest |-> phase.s.rest, key |-> phase.s.key, k |-> phase.k,
                          lint |-> LintReports(phase.s, phase.k), plain |-> DynPlain(phase.s, phase.k), kw |-> DynKw(phase.s, phase.k)]))
@@ -126,5 +169,5 @@ Next == Emit \/ (done /\ UNCHANGED vars)
 Spec == Init /\ [][Next]_vars
 
 \* the agreement theorem, evaluated in every state for the state's own case (and once globally by Agreement)
-Inv == phase.src = "shadow" \/ (Sound(phase.s, phase.k) /\ Complete(phase.s, phase.k) /\ NoArityAfterAccept(phase.s, phase.k))
+Inv == phase.src \in {"shadow", "hist"} \/ (Sound(phase.s, phase.k) /\ Complete(phase.s, phase.k) /\ NoArityAfterAccept(phase.s, phase.k))
 =============================================================================
